@@ -47,6 +47,10 @@ def check_history(rec, R, case, V, drained=True):
             V('alien-message', 'client of session %d was handed a MESSAGE '
               'nobody sent: %r' % (d['s'], d['data']))
             continue
+        if d.get('before_upgrade'):
+            V('message-on-websocket-before-upgrade-completed', 'message %s '
+              'was handed over on the upgrade socket of session %d although '
+              'the client never sent UPGRADE on it' % (d['id'], d['s']))
         if d['id'] in seen:
             V('delivered-twice', 'message %s delivered twice (%s then %s)' % (
                 d['id'], seen[d['id']]['via'], d['via']))
